@@ -25,6 +25,7 @@ pub fn single(name: &str, cfg: Scenario, ack: bool, size: u64, dev: usize) -> DS
         user: vec![],
         strays: false,
         horizon: 300,
+        seq_start: None,
     }
 }
 
@@ -191,8 +192,16 @@ pub fn c11_scenarios(tier: Tier) -> Vec<DScn> {
         user: vec![],
         strays: false,
         horizon: 400,
+        seq_start: None,
     };
     v.push(base.clone());
+    // the sequence counter at the top of its width: ids handed out for Put stay distinct
+    let mut w = base.clone();
+    w.name = "c11 sequence counter wraps: three Puts A->B from U8(254)".into();
+    w.txns = vec![TxnSpec { from: 0, to: 1, ack: false, size: 16 }, TxnSpec { from: 0, to: 1, ack: true, size: 17 }, TxnSpec { from: 0, to: 1, ack: false, size: 1 }];
+    w.seq_start = Some(cfdp_core::pdu::VariableID::from(254u8));
+    w.dev_bound = 1;
+    v.push(w);
     let mut s = base.clone();
     s.name = "c11 two daemons: T1 A->B ack, T2 B->A unack, T3 A->B unack (shared slot) + strays".into();
     s.txns.push(TxnSpec { from: 0, to: 1, ack: false, size: 16 });
